@@ -300,7 +300,7 @@ def worldOp1 (st : Option World) (op : String) (args tr : List String) : Option 
   | "srvconn", name :: evs, some w =>
     match srvIdxW w name, parseEvs evs with
     | some si, some evs =>
-      if ((getSrv w si).map (·.conf.type)) ≠ some 2 then (some w, "bad-op") else
+      if ((getSrv w si).map (·.conf.type)) ≠ some 2 ∧ ((getSrv w si).map (·.conf.type)) ≠ some 1 then (some w, "bad-op") else
       let w := withOracle w t
       let (w, s) := tail (srvConn w si evs)
       (some w, "srvconn" ++ s)
